@@ -3,6 +3,19 @@
 use super::*;
 
 include!("/verif/harness/common.rs");
+/// Property-scoped assertion: a harness body shared by several properties is instantiated once
+/// per owning property; only the assertions of that property are active in an instance (Kani
+/// stops a path at the first failed assertion, so assertions of another property placed
+/// earlier would otherwise shadow the later ones).
+#[allow(unused_macros)]
+macro_rules! pa {
+    ($own:expr, $p:expr, $cond:expr, $msg:expr) => {
+        if $own == $p {
+            assert!($cond, $msg);
+        }
+    };
+}
+
 
 fn mk(m: u128, k: u128) -> (Mac, Key) {
     (Mac(m), Key(k))
@@ -292,10 +305,7 @@ fn any_share2() -> Share {
 /// three triples, i.e. two d-values): whatever the peer sent (lengths of the inner vectors
 /// included), Ok(d) implies that the peer opened exactly two d-bits with two MACs that verify
 /// under the own keys, and d is own ^ peer. No input may panic (C08).
-#[kani::proof]
-#[kani::unwind(6)]
-#[kani::stub(std::fmt::format, no_format)]
-fn c04_check_dvalue_tail_n2_b3() {
+fn check_dvalue_tail_n2_b3(prop_own: u8) {
     let delta = Delta(kani::any());
     let ys = [any_share2(), any_share2(), any_share2()];
     let xs = [any_share2(), any_share2(), any_share2()];
@@ -324,11 +334,11 @@ fn c04_check_dvalue_tail_n2_b3() {
     kani::cover!(ok, "dvalue_ok_reachable");
     kani::cover!(!ok, "dvalue_err_reachable");
     if let Ok(d) = &r {
-        assert!(pd_len >= 2 && pm_len >= 2, "C02:dvalue:short-or-empty-opening-not-accepted");
+        pa!(prop_own, 2, pd_len >= 2 && pm_len >= 2, "C02:dvalue:short-or-empty-opening-not-accepted");
         if pd_len >= 2 && pm_len >= 2 {
-            assert!(pm0 == ykeys[0] ^ ykeys[1] ^ (if pd0 { delta.0 } else { 0 }), "C04:dvalue:MAC-of-d1-verified");
-            assert!(pm1 == ykeys[0] ^ ykeys[2] ^ (if pd1 { delta.0 } else { 0 }), "C04:dvalue:MAC-of-d2-verified");
-            assert!(d.len() == 1 && d[0].len() == 2 && d[0][0] == (own_d[0] ^ pd0) && d[0][1] == (own_d[1] ^ pd1), "C10:dvalue:d==own^peer");
+            pa!(prop_own, 4, pm0 == ykeys[0] ^ ykeys[1] ^ (if pd0 { delta.0 } else { 0 }), "C04:dvalue:MAC-of-d1-verified");
+            pa!(prop_own, 4, pm1 == ykeys[0] ^ ykeys[2] ^ (if pd1 { delta.0 } else { 0 }), "C04:dvalue:MAC-of-d2-verified");
+            pa!(prop_own, 10, d.len() == 1 && d[0].len() == 2 && d[0][0] == (own_d[0] ^ pd0) && d[0][1] == (own_d[1] ^ pd1), "C10:dvalue:d==own^peer");
         }
     }
     std::mem::forget(r);
@@ -336,13 +346,25 @@ fn c04_check_dvalue_tail_n2_b3() {
     std::mem::forget((xs, ys, zs));
 }
 
+macro_rules! check_dvalue_tail_n2_b3_variant {
+    ($name:ident, $own:expr) => {
+        #[kani::proof]
+        #[kani::unwind(6)]
+        #[kani::stub(std::fmt::format, no_format)]
+        fn $name() {
+            check_dvalue_tail_n2_b3($own);
+        }
+    };
+}
+check_dvalue_tail_n2_b3_variant!(c04_check_dvalue_tail_n2_b3, 4);
+check_dvalue_tail_n2_b3_variant!(c04_check_dvalue_tail_n2_b3__c02, 2);
+check_dvalue_tail_n2_b3_variant!(c04_check_dvalue_tail_n2_b3__c10, 10);
+
+
 /// C04 - Beaver derandomisation, check of the opened (d, e) values (n = 2, own index 0, two
 /// triples): Ok implies that for every triple BOTH of the peer's MACs (on d and on e) verify
 /// under the own keys of the d/e shares; the returned openings are own ^ peer.
-#[kani::proof]
-#[kani::unwind(5)]
-#[kani::stub(std::fmt::format, no_format)]
-fn c04_beaver_check_n2() {
+fn beaver_check_n2(prop_own: u8) {
     let delta = Delta(kani::any());
     let dk: [u128; 2] = [kani::any(), kani::any()];
     let ek: [u128; 2] = [kani::any(), kani::any()];
@@ -368,14 +390,28 @@ fn c04_beaver_check_n2() {
     if let Ok(v) = &r {
         let mut j = 0;
         while j < 2 {
-            assert!(pdm[j] == dk[j] ^ (if pd[j] { delta.0 } else { 0 }), "C04:beaver:MAC-of-d-verified");
-            assert!(pem[j] == ek[j] ^ (if pe[j] { delta.0 } else { 0 }), "C04:beaver:MAC-of-e-verified");
-            assert!(v.len() == 2 && v[j].0 == (own_d[j] ^ pd[j]) && v[j].1 == (own_e[j] ^ pe[j]), "C10:beaver:opened-d,e==own^peer");
+            pa!(prop_own, 4, pdm[j] == dk[j] ^ (if pd[j] { delta.0 } else { 0 }), "C04:beaver:MAC-of-d-verified");
+            pa!(prop_own, 4, pem[j] == ek[j] ^ (if pe[j] { delta.0 } else { 0 }), "C04:beaver:MAC-of-e-verified");
+            pa!(prop_own, 10, v.len() == 2 && v[j].0 == (own_d[j] ^ pd[j]) && v[j].1 == (own_e[j] ^ pe[j]), "C10:beaver:opened-d,e==own^peer");
             j += 1;
         }
     }
     std::mem::forget(r);
 }
+
+macro_rules! beaver_check_n2_variant {
+    ($name:ident, $own:expr) => {
+        #[kani::proof]
+        #[kani::unwind(5)]
+        #[kani::stub(std::fmt::format, no_format)]
+        fn $name() {
+            beaver_check_n2($own);
+        }
+    };
+}
+beaver_check_n2_variant!(c04_beaver_check_n2, 4);
+beaver_check_n2_variant!(c04_beaver_check_n2__c10, 10);
+
 
 /// C10 - Beaver derandomisation, final share (n = 2, own index 0, one triple):
 ///   share == c ^ (d ? beta : 0) ^ (e ? a : 0)   (bit, MAC and key towards the peer).
@@ -453,10 +489,7 @@ fn mac_of(a: &[u8; 17]) -> u128 {
 /// decommitment may panic; (C07) the value opened for an object is d0 ^ (claimed bit * delta)
 /// only if the peer's claim is backed by a MAC that verifies under the own key (= d0 for
 /// n = 2) - otherwise a lying peer obtains d0 ^ delta and, with the MAC it holds, the global key.
-#[kani::proof]
-#[kani::unwind(20)]
-#[kani::stub(std::fmt::format, no_format)]
-fn c07_fashare_3c_n2() {
+fn fashare_3c_n2(prop_own: u8) {
     let delta: u128 = kani::any();
     let key: [u128; 2] = kani::any(); // own keys for the peer's check bits = d0 (n = 2)
     let own: [[u8; 17]; 2] = kani::any();
@@ -470,21 +503,36 @@ fn c07_fashare_3c_n2() {
     kani::cover!(ok, "fashare3c_ok_reachable");
     kani::cover!(!ok, "fashare3c_err_reachable");
     if let Ok(di_bi) = &r {
-        assert!(di_bi.len() == 2, "C10:fashare3c:one-opening-per-check-object");
+        pa!(prop_own, 10, di_bi.len() == 2, "C10:fashare3c:one-opening-per-check-object");
         let mut j = 0;
         while j < 2 {
             let claimed = peer[j][0];
-            assert!(lens[j] == 0 || claimed <= 1, "C04:fashare3c:non-bit-claim-rejected");
+            pa!(prop_own, 4, lens[j] == 0 || claimed <= 1, "C04:fashare3c:non-bit-claim-rejected");
             let opened = di_bi[j];
-            assert!(opened == key[j] || opened == key[j] ^ delta, "C07:fashare3c:opens-d0-or-d1");
+            pa!(prop_own, 7, opened == key[j] || opened == key[j] ^ delta, "C07:fashare3c:opens-d0-or-d1");
             if opened == (key[j] ^ delta) && delta != 0 {
-                assert!(lens[j] == 17 && mac_of(&peer[j]) == key[j] ^ delta, "C07:fashare3c:d0^delta-opened-only-for-a-claim-whose-MAC-verifies");
+                pa!(prop_own, 7, lens[j] == 17 && mac_of(&peer[j]) == key[j] ^ delta, "C07:fashare3c:d0^delta-opened-only-for-a-claim-whose-MAC-verifies");
             }
             j += 1;
         }
     }
     std::mem::forget(r);
 }
+
+macro_rules! fashare_3c_n2_variant {
+    ($name:ident, $own:expr) => {
+        #[kani::proof]
+        #[kani::unwind(20)]
+        #[kani::stub(std::fmt::format, no_format)]
+        fn $name() {
+            fashare_3c_n2($own);
+        }
+    };
+}
+fashare_3c_n2_variant!(c07_fashare_3c_n2, 7);
+fashare_3c_n2_variant!(c07_fashare_3c_n2__c04, 4);
+fashare_3c_n2_variant!(c07_fashare_3c_n2__c10, 10);
+
 
 /// C04 - aShare consistency round, step 3d (n = 2, own index 0, 2 check objects): Ok implies
 /// that for every check object the XOR of the MACs decommitted for the peer equals the value
